@@ -39,7 +39,8 @@ struct Variant {
 fn variants(thorough: bool) -> Vec<Variant> {
     let warps: Vec<Warp> = if thorough { vec![Warp::Id, Warp::Sin, Warp::Quad] } else { vec![Warp::Id, Warp::Sin] };
     let mixes: Vec<Mix> = if thorough { vec![Mix::Id, Mix::Shear, Mix::Sl2] } else { vec![Mix::Id, Mix::Sl2] };
-    let lin_scales = vec![1.0, 1e-3, 1e3];
+    // (1e-12: atol + rtol*|y| falls below the rounding unit under relative control; nothing may depend on that)
+    let lin_scales = vec![1.0, 1e-3, 1e3, 1e-12];
     let mut v = vec![];
     for w in &warps {
         // scalar families
